@@ -212,7 +212,7 @@ def _iter_exit(fn, e, drv):
 
 
 def _memo(P, R):
-    ev = P.one("rete::memoization::MemoizedEvaluator::evaluate")
+    ev = P.one("rete::memoization::MemoizedEvaluator::evaluate", inline=False)   # the key helpers hash by side effect: keep them as calls
     ins = [c for (c, s) in A.calls_with_receiver_field(ev, "cache", "rete::memoization::MemoizedEvaluator") if c.name.endswith("HashMap::insert")]
     gets = [c for (c, s) in A.calls_with_receiver_field(ev, "cache", "rete::memoization::MemoizedEvaluator") if c.name.endswith("HashMap::get")]
     if not ins or not gets:
